@@ -92,6 +92,10 @@ fn answer_query<Q: MakeCustomQuery>(
             r(querier.query_all_balances(a), |cs| fmt_coins_sorted(&cs))
         }
         QueryOp::Supply { denom } => r(querier.query_supply(names.denom(*denom)), |c| format!("{}{}", c.amount, c.denom)),
+        QueryOp::DenomMeta { denom } => r(querier.query_denom_metadata(names.denom(*denom)), |m| m.name),
+        QueryOp::AllDenomMeta => r(querier.query_all_denom_metadata(cosmwasm_std::PageRequest { key: None, limit: 1000, reverse: false }), |m| {
+            m.metadata.iter().map(|x| x.name.clone()).collect::<Vec<_>>().join(",")
+        }),
         QueryOp::Raw { contract, key } => {
             let a = names.target(contract, self_addr);
             r(querier.query_wasm_raw(a, names.key(key)), |v| match v {
@@ -279,7 +283,10 @@ pub fn run_node<C: MakeCustom, Q: MakeCustomQuery>(
     }
     resp.data = node.data.clone().map(Binary::new);
     let balance = |denom: &str| -> u128 {
-        querier.query_balance(self_addr.clone(), denom).map(|c| c.amount.u128()).unwrap_or(0)
+        world.0.borrow_mut().rec_suspended = true;
+        let b = querier.query_balance(self_addr.clone(), denom).map(|c| c.amount.u128()).unwrap_or(0);
+        world.0.borrow_mut().rec_suspended = false;
+        b
     };
     for s in &node.subs {
         let cm = resolve_msg(&names, &s.msg, &self_addr, &balance);
@@ -491,7 +498,7 @@ pub fn effective_kind(kind: CodeKind, tag: u32) -> CodeKind {
 /// first gets the lower-case bech32 string, the second the very same string in upper case (a
 /// different address that differs only in letter case), the third the first string with its last
 /// byte incremented, the fourth (for odd code ids) the first one's address again, which must be
-/// rejected as a duplicate. Salted addresses stay the default.
+/// rejected as a duplicate (for even code ids a fresh address of 200 canonical bytes). Salted addresses stay the default.
 pub struct AdvAddrGen;
 
 /// Checksum generator whose result depends on the creator as well as on the code id (the trait gives
@@ -527,7 +534,13 @@ pub fn adv_address(api: &dyn cosmwasm_std::Api, code_id: u64, instance_id: u64) 
             if code_id % 2 == 1 {
                 base
             } else {
-                api.addr_humanize(&cosmwasm_std::CanonicalAddr::from(canon("fresh", instance_id)))?
+                // a fresh, valid and very long address (200 canonical bytes, more than 255 bytes of storage namespace)
+                let mut long = vec![];
+                for i in 0..7u64 {
+                    long.extend_from_slice(&canon("fresh-long", instance_id * 8 + i));
+                }
+                long.truncate(200);
+                api.addr_humanize(&cosmwasm_std::CanonicalAddr::from(long))?
             }
         }
     })
